@@ -66,6 +66,141 @@ fn parse_responses(mut b: &[u8]) -> Result<Vec<(u16, Vec<(String, String)>, Vec<
     Ok(out)
 }
 
+/// frame endpoint scripted by the harness: reads yield the queued results, then block for ever (or end / fail)
+struct ScriptedFrames {
+    reads: std::collections::VecDeque<std::io::Result<Option<crate::common::frames::Frame>>>,
+    then_pending: bool,
+    write_fails: bool,
+}
+#[async_trait::async_trait]
+impl crate::common::frames::FrameReader for ScriptedFrames {
+    async fn read(&mut self) -> std::io::Result<Option<crate::common::frames::Frame>> {
+        match self.reads.pop_front() {
+            Some(r) => r,
+            None if self.then_pending => std::future::pending().await,
+            None => Ok(None),
+        }
+    }
+}
+struct ScriptedWriter {
+    fails: bool,
+}
+#[async_trait::async_trait]
+impl crate::common::frames::FrameWriter for ScriptedWriter {
+    async fn write(&mut self, frame: crate::common::frames::Frame) -> std::io::Result<usize> {
+        if self.fails {
+            Err(std::io::Error::new(std::io::ErrorKind::ConnectionRefused, "refused"))
+        } else {
+            Ok(frame.len())
+        }
+    }
+    async fn shutdown(&mut self) -> std::io::Result<()> {
+        Ok(())
+    }
+}
+
+/// connector that serves a UDP request with harness frames
+struct FrameConnector {
+    name: String,
+    ending: &'static str,
+}
+#[async_trait::async_trait]
+impl crate::connectors::Connector for FrameConnector {
+    fn name(&self) -> &str {
+        &self.name
+    }
+    fn features(&self) -> &[crate::context::Feature] {
+        &[crate::context::Feature::TcpForward, crate::context::Feature::UdpForward, crate::context::Feature::UdpBind]
+    }
+    async fn init(&mut self) -> Result<(), easy_error::Error> {
+        Ok(())
+    }
+    async fn connect(self: std::sync::Arc<Self>, _state: std::sync::Arc<crate::GlobalState>, ctx: crate::context::ContextRef) -> Result<(), easy_error::Error> {
+        let mut reads = std::collections::VecDeque::new();
+        let (then_pending, write_fails) = match self.ending {
+            "origin-read-error" => {
+                reads.push_back(Err(std::io::Error::new(std::io::ErrorKind::ConnectionRefused, "refused")));
+                (true, false)
+            }
+            "origin-write-error" => (true, true),
+            "origin-ends" => (false, false),
+            _ => (true, false), // idle timeout
+        };
+        let r = ScriptedFrames { reads, then_pending, write_fails };
+        ctx.write().await.set_server_frames((Box::new(r), Box::new(ScriptedWriter { fails: write_fails })));
+        Ok(())
+    }
+}
+
+fn datagram_channel_sessions(chk: &Check) -> usize {
+    use super::io::ChunkStream;
+    use super::world::*;
+    use crate::common::frames::Frame;
+    use crate::common::h11c::h11c_handshake;
+    use crate::context::{make_buffered_stream, TargetAddress};
+    let mut n = 0;
+    for channel in ["quic-datagrams", "inline"] {
+        for ending in ["origin-read-error", "origin-write-error"] {
+            for client_sends_frame in [false, true] {
+                // (endings by idle timeout run on the wall clock and are exercised on real sockets, E4 part)
+                if ending == "origin-write-error" && (!client_sends_frame || channel == "inline") {
+                    continue; // (inline: the client's frames travel in the request stream, scripted frames are not used)
+                }
+                n += 1;
+                let res = catch(|| {
+                    block_on_timeout(60, async move {
+                        let conn: std::sync::Arc<dyn crate::connectors::Connector> = std::sync::Arc::new(FrameConnector { name: "up".into(), ending });
+                        let state = make_state(vec![conn], 0);
+                        state.set_rules(parse_rules("[{\"target\":\"up\"}]").unwrap()).await.unwrap();
+                        let ctx = state.contexts.create_context("q".into(), "127.0.0.1:9".parse().unwrap()).await;
+                        let head = format!("CONNECT 10.1.2.3:53 HTTP/1.1\r\nProxy-Protocol: udp\r\nProxy-Channel: {channel}\r\n\r\n");
+                        let mut s = ChunkStream::new(vec![head.into_bytes()]);
+                        s.eof = false; // the request stream stays open
+                        let client_rx = s.written.clone();
+                        ctx.write().await.set_client_stream(make_buffered_stream(s)).set_idle_timeout(2);
+                        let (tx, mut rx) = tokio::sync::mpsc::channel(4);
+                        let frames_fn = move |_ch: &str, _id: u32| async move {
+                            let mut reads = std::collections::VecDeque::new();
+                            if client_sends_frame {
+                                let mut f = Frame::from_body(bytes::Bytes::from_static(b"dgram"));
+                                f.addr = Some(TargetAddress::SocketAddr("10.1.2.3:53".parse().unwrap()));
+                                reads.push_back(Ok(Some(f)));
+                            }
+                            let r: crate::common::frames::FrameIO = (Box::new(ScriptedFrames { reads, then_pending: true, write_fails: false }), Box::new(ScriptedWriter { fails: false }));
+                            Ok(r)
+                        };
+                        let hs = h11c_handshake(ctx.clone(), tx, frames_fn).await;
+                        if hs.is_ok() {
+                            if let Ok(c) = rx.try_recv() {
+                                crate::process_request(c, state.clone()).await;
+                            }
+                        }
+                        drop(ctx);
+                        let bytes = client_rx.lock().unwrap().clone();
+                        bytes
+                    })
+                });
+                let what = format!("channel {channel}, {ending}, client {}", if client_sends_frame { "sends a datagram" } else { "is silent" });
+                match res {
+                    Err(p) => chk.violation("reply.once", "panic:udp-datagram-channel", format!("{what}: {p}"), json!({"channel": channel, "ending": ending})),
+                    Ok(None) => chk.violation("reply.once", "hang:udp-datagram-channel", format!("{what}: session did not end within 60 virtual seconds"), json!({"channel": channel, "ending": ending})),
+                    Ok(Some(bytes)) => {
+                        // inline: after the 200 the stream carries frames (binary); only look at what precedes them
+                        let text = String::from_utf8_lossy(&bytes).to_string();
+                        let statuses = text.matches("HTTP/1.1 ").count();
+                        if !text.starts_with("HTTP/1.1 200") {
+                            chk.violation("reply.iff", &format!("udp-session-not-established:{channel}"), format!("{what}: first reply {:?}", &text[..text.len().min(60)]), json!({"channel": channel, "ending": ending}));
+                        } else if statuses != 1 {
+                            chk.violation("reply.once", &format!("second-reply-after-success:udp-{channel}:{ending}"), format!("{what}: the request stream carries {statuses} status lines: {:?}", &text[..text.len().min(200)]), json!({"channel": channel, "ending": ending, "client_sends_frame": client_sends_frame}));
+                        }
+                    }
+                }
+            }
+        }
+    }
+    n
+}
+
 #[test]
 fn check() {
     let chk = Check::new("C06");
@@ -155,6 +290,10 @@ fn check() {
         };
         explore(&cfg, &b, &check, &stats);
     });
+    // ---- UDP sessions on a datagram channel (what the QUIC listener offers): request stream + separate frame channel.
+    //      After the 200 the session ends in one of several ways; the request stream must carry exactly one reply.
+    let dg = datagram_channel_sessions(&chk);
+
     let ex = stats.executions.load(Ordering::Relaxed);
     if ex < 300 || stats.distinct.len() < 8 {
         machinery(format!("vacuous: executions={ex} distinct={}", stats.distinct.len()));
@@ -164,7 +303,7 @@ fn check() {
         "states": stats.distinct.len(), "transitions": stats.steps.load(Ordering::Relaxed), "traces_validated_against_impl": ex,
         "evaluations": ex, "distinct_nontrivial": stats.distinct.len(),
         "rule": "scenarios = {request ok x upstream codec {direct,http,socks5,socks4} x upstream behaviour {accept, connect error, proxy says no, closes mid-handshake}} + {denied, no rule (2 forms), unsupported feature, bad method, bad protocol, bad target}; every schedule within the deviation bound (2, thorough 3) incl. 1-byte segmentation; the complete client-side byte stream is parsed by a strict response reader. states = distinct (request, upstream, behaviour, status list, established) observations",
-        "scenarios": scs.len(), "deviation_bound": cfg.bound, "horizon_hits": stats.horizon_hits.load(Ordering::Relaxed), "judged_executions": interesting.load(Ordering::Relaxed),
+        "datagram_channel_sessions": dg, "scenarios": scs.len(), "deviation_bound": cfg.bound, "horizon_hits": stats.horizon_hits.load(Ordering::Relaxed), "judged_executions": interesting.load(Ordering::Relaxed),
         "samples": [{"request": "Ok", "upstream": "Socks5", "behaviour": "ProxySaysNo", "expected": "exactly one non-2xx reply with complete body, then close"}],
     });
     chk.finish(
